@@ -79,8 +79,9 @@ def entry_of(path, disk=DISK):
     return "?path:" + b
 
 
-def run(root, cmd, args, disk=DISK, timeout=60):
-    r = vlib.run_cli([cmd] + [path_of(a, disk) for a in args], cwd=root, timeout=timeout)
+def run(root, cmd, args, disk=DISK, timeout=60, verb=0):
+    """verb: how often -v is given (Cli.tla: verb) - logging to a file, never part of the observation"""
+    r = vlib.run_cli((["-" + "v" * verb] if verb else []) + [cmd] + [path_of(a, disk) for a in args], cwd=root, timeout=timeout)
     obs = {"rc": r["rc"], "timeout": r.get("timeout", False)}
     out_lines = r["stdout"].splitlines()
     if cmd == "check":
@@ -101,5 +102,6 @@ def run(root, cmd, args, disk=DISK, timeout=60):
 
 
 def run_many(root, invocations, disk=DISK):
+    """invocations: (cmd, args) or (cmd, args, verb)"""
     with ThreadPoolExecutor(max_workers=vlib.NCPU) as ex:
-        return list(ex.map(lambda ia: run(root, ia[0], ia[1], disk), invocations))
+        return list(ex.map(lambda ia: run(root, ia[0], ia[1], disk, verb=(ia[2] if len(ia) > 2 else 0)), invocations))
